@@ -40,13 +40,19 @@ fn isolation(before: &Snap, after: &Snap, ids: &[u32]) -> Option<String> {
 
 struct Outcome { case: String, imp: String, oracle: String, nontrivial: bool, notes: Vec<String> }
 
-/// rs: per router (address index, number of peers); two routers may share an address.
+/// rs: per router (address index, number of peers); two routers may share an address. An address
+/// index >= 100 stands for address `index - 100` of a router whose peers all negotiate Graceful
+/// Restart (so the state machine waits for their End-of-RIB markers while Dumping).
 fn run_world(rs: &[(u8, usize)], ops: &[String], queries: &[Pfx]) -> Outcome {
     let mut rib = RealRib::new();
+    let gr_of: Vec<bool> = rs.iter().map(|(a, _)| *a >= 100).collect();
+    let rs: Vec<(u8, usize)> = rs.iter().map(|(a, n)| (*a % 100, *n)).collect();
+    let rs_shown: Vec<(u8, usize)> = rs.iter().zip(&gr_of).map(|((a, n), g)| (if *g { *a + 100 } else { *a }, *n)).collect();
+    let rs = &rs[..];
     let routers = rs.iter().map(|(a, n)| (IpAddr::V4(Ipv4Addr::new(203, 0, 113, *a)), (0..*n).map(|k| BmpPeer::plain(k as u32)).collect::<Vec<_>>())).collect::<Vec<_>>();
     // every router monitors the same neighbour as its peer 0 (same address and AS seen from different routers);
     // the other peers are different per router
-    let routers = routers.into_iter().enumerate().map(|(r, (ip, ps))| (ip, ps.into_iter().enumerate().map(|(k, _)| BmpPeer::plain(if k == 0 { 0 } else { (4 * r + k) as u32 })).collect())).collect();
+    let routers = routers.into_iter().enumerate().map(|(r, (ip, ps))| (ip, ps.into_iter().enumerate().map(|(k, _)| BmpPeer { gr: gr_of[r], ..BmpPeer::plain(if k == 0 { 0 } else { (4 * r + k) as u32 }) }).collect())).collect();
     let mut w = BmpWorld::new(routers);
     let mut evs: Vec<Ev> = vec![];
     let mut notes: Vec<String> = vec![];
@@ -79,7 +85,15 @@ fn run_world(rs: &[(u8, usize)], ops: &[String], queries: &[Pfx]) -> Outcome {
         let peer_id = if let Op::PeerDown(_, k) = &op { w.routers[r].conn.as_ref().and_then(|c| if *k < c.peers.len() && c.peers[*k].up { c.ingress_of(*k) } else { None }) } else { None };
         let (em, note) = w.apply(&op, &mut rib.blobs);
         notes.push(note.split(|c| c == ':' || c == '(').next().unwrap_or("").split("-as-").next().unwrap().to_string());
-        let Some(em) = em else { continue };
+        let Some(em) = em else {
+            // the session-level event the property promises must have left the state machine
+            match &op {
+                Op::PeerDown(..) if peer_id.is_some() => fails.push(format!("completeness:peer-down-of-up-peer-sent-no-withdrawal id {:?} ({})", peer_id.unwrap(), notes.last().unwrap())),
+                Op::Terminate(..) if !up_here.is_empty() => fails.push(format!("completeness:termination-with-peers-up-sent-no-withdrawal ids {:?} ({})", up_here, notes.last().unwrap())),
+                _ => {}
+            }
+            continue
+        };
         let named: Option<Vec<u32>> = match &em.ev { Ev::Down(m) => Some(vec![*m]), Ev::DownBulk(ms) => Some(ms.clone()), _ => None };
         let before = if named.is_some() { Some(snapshot(&rib, queries)) } else { None };
         if let Err(p) = rib.process(em.update) { notes.push(format!("panic:{p}")); }
@@ -102,7 +116,7 @@ fn run_world(rs: &[(u8, usize)], ops: &[String], queries: &[Pfx]) -> Outcome {
         }
         evs.push(em.ev);
     }
-    let case = format!("h|{}|{}|w {} {}", join(queries.iter().map(|p| p.show()), " "), join(evs.iter().map(|e| e.show()), " "), join(rs.iter().map(|(a, n)| format!("{a}.{n}")), ","), ops.join(" "));
+    let case = format!("h|{}|{}|w {} {}", join(queries.iter().map(|p| p.show()), " "), join(evs.iter().map(|e| e.show()), " "), join(rs_shown.iter().map(|(a, n)| format!("{a}.{n}")), ","), ops.join(" "));
     let imp = if notes.iter().any(|n| n == "panic-rib.rs:326") { "panic rib.rs:326".to_string() } else { rib.observe(queries) };
     // report the most specific unknown failure first, a known one otherwise
     fails.sort_by_key(|f| f.starts_with("identity:"));
@@ -182,8 +196,12 @@ fn gen_upd(rng: &mut Rng, pool: &[Pfx]) -> Upd {
 fn gen_world(rng: &mut Rng, pool: &[Pfx], rec: &mut Recorder) -> (Vec<(u8, usize)>, Vec<String>) {
     let nr = rng.range(1, 3) as usize;
     let same_ip = nr >= 2 && rng.chance(1, 6);
-    let rs: Vec<(u8, usize)> = (0..nr).map(|r| (if same_ip && r == 1 { 1 } else { 1 + r as u8 }, rng.range(1, 3) as usize)).collect();
+    let mut rs: Vec<(u8, usize)> = (0..nr).map(|r| (if same_ip && r == 1 { 1 } else { 1 + r as u8 }, rng.range(1, 3) as usize)).collect();
     if same_ip { rec.bump("world-two-routers-one-address"); }
+    // one world in three has a router whose peers negotiate Graceful Restart: its session stays in the
+    // Dumping phase until every peer that announced something has sent End-of-RIB or gone down
+    let gr_world = rng.chance(1, 3);
+    if gr_world { let r = rng.below(nr as u64) as usize; rs[r].0 += 100; rec.bump("world-graceful-restart-router"); }
     let focus: Vec<Pfx> = (0..rng.range(2, 4)).map(|_| *rng.pick(pool)).collect();
     let mut ops: Vec<Op> = vec![];
     for r in 0..nr { ops.push(Op::Connect(r)); for k in 0..rs[r].1 { ops.push(Op::PeerUp(r, k)); } }
@@ -192,6 +210,7 @@ fn gen_world(rng: &mut Rng, pool: &[Pfx], rec: &mut Recorder) -> (Vec<(u8, usize
         let r = rng.below(nr as u64) as usize;
         let k = rng.below(rs[r].1 as u64) as usize;
         match rng.below(100) {
+            0..=62 if gr_world && rng.chance(1, 8) => { out.push(Op::Rm(r, k, Upd { attr: 1, ann: vec![], wd: vec![], mp4: false, corrupt: 0 }).show()); rec.bump("op-end-of-rib"); }
             0..=62 => { out.push(Op::Rm(r, k, gen_upd(rng, &focus)).show()); rec.bump("op-route-monitoring"); }
             63..=74 => { out.push(Op::PeerDown(r, k).show()); if rng.chance(1, 2) { out.push(Op::PeerUp(r, k).show()); } rec.bump("op-peer-down"); }
             75..=81 => { out.push(Op::Terminate(r).show()); if rng.chance(2, 3) { out.push(Op::Connect(r).show()); for k in 0..rs[r].1 { out.push(Op::PeerUp(r, k).show()); } } rec.bump("op-terminate"); }
